@@ -8,6 +8,7 @@ TRUSTED_BASE = [
     "Go harness (/verif/harness): generators, projection of observables, hook files (//go:build verif) in /repo",
     "hand-written Gallina model is tied to the code only by the correspondence run (differential testing on generated inputs)",
     "translator harness/extract.go for Generated/*.v (FSM tables by exhaustive enumeration of the real fsm objects, constants via go/ast)",
+    "translator harness/gotrans*.go for Generated/Go*.v (restricted Go subset -> Gallina via go/ast + go/types; stripped statement forms: Lock/Unlock/RLock/RUnlock and their defers, log.* and metrics.* call statements, event sends; nil vs empty map not distinguished, slice capacity = length, distinct access paths assumed not to alias)",
 ]
 
 import glob
